@@ -129,14 +129,14 @@ impl World for WorldI {
         };
         // trust deploy register send deploy_remote deploy_remote_canonical inbound minter_mint ownership resubmit
         let mut w: [u32; 10] = match focus {
-            "C04" => [10, 6, 5, 5, 0, 0, 60, 1, 1, 8],
-            "C05" => [6, 9, 8, 30, 0, 0, 28, 5, 0, 8],
-            "C10" => [4, 8, 6, 4, 2, 2, 70, 0, 0, 4],
-            "C11" => [4, 30, 14, 5, 0, 0, 34, 4, 0, 8],
-            "C18" => [12, 10, 12, 2, 26, 26, 2, 0, 1, 6],
-            "C06" => [45, 3, 3, 3, 2, 2, 5, 0, 28, 8],
-            "C07" => [5, 18, 4, 30, 18, 18, 2, 0, 0, 6],
-            "C13" => [6, 8, 8, 35, 16, 16, 2, 0, 0, 5],
+            "C04" => [10, 6, 5, 5, 1, 1, 60, 1, 1, 8],
+            "C05" => [6, 9, 8, 30, 1, 1, 28, 5, 1, 8],
+            "C10" => [4, 8, 6, 4, 2, 2, 70, 1, 1, 4],
+            "C11" => [4, 30, 14, 5, 1, 1, 34, 4, 1, 8],
+            "C18" => [12, 10, 12, 2, 26, 26, 2, 1, 1, 6],
+            "C06" => [45, 3, 3, 3, 2, 2, 5, 1, 28, 8],
+            "C07" => [5, 18, 4, 30, 18, 18, 2, 1, 1, 6],
+            "C13" => [6, 8, 8, 35, 16, 16, 2, 1, 1, 5],
             _ => [8, 10, 8, 15, 8, 8, 30, 3, 2, 8],
         };
         if !f_dup {
